@@ -51,22 +51,53 @@ def extensions():
     return _REG
 
 
+_PARTIAL = {}
+
+
+def partial_of(e):
+    """An 'older version' of extension e: same name, only every second definition (none if it has one)."""
+    import copy
+
+    from hugr import ext as hext
+
+    if e.name not in _PARTIAL:
+        p = hext.Extension(e.name, e.version)
+        for coll, add in ((e.types, p.add_type_def), (e.operations, p.add_op_def)):
+            for i, k in enumerate(sorted(coll)):
+                if i % 2 == 1:
+                    d = copy.copy(coll[k])
+                    d._extension = None
+                    if hasattr(d, "signature"):
+                        d.signature = copy.copy(d.signature)
+                    add(d)
+        _PARTIAL[e.name] = p
+    return _PARTIAL[e.name]
+
+
+def members(groups):
+    """groups: list of group names; a name with suffix '~' means the partial (older) versions."""
+    out = []
+    for g in groups:
+        for e in extensions()[g.rstrip("~")]:
+            out.append(partial_of(e) if g.endswith("~") else e)
+    return out
+
+
 def registry(groups):
     from hugr.ext import ExtensionRegistry
 
     r = ExtensionRegistry()
-    for g in groups:
-        for e in extensions()[g]:
-            r.add_extension(e)
+    for e in members(groups):
+        r.add_extension(e)
     return r
 
 
 def knows_type(groups, ext, name):
-    return any(e.name == ext and name in e.types for g in groups for e in extensions()[g])
+    return any(e.name == ext and name in e.types for e in members(groups))
 
 
 def knows_op(groups, ext, name):
-    return any(e.name == ext and name in e.operations for g in groups for e in extensions()[g])
+    return any(e.name == ext and name in e.operations for e in members(groups))
 
 
 # ---- resolvedness trees ------------------------------------------------------------------------------
@@ -197,11 +228,19 @@ def hugr_leg(ctx):
     known = []
     if ch.coin(1, 2, "start-empty"):
         chain.append([])
-    while order and len(chain) < 4:
+    while (order or any(g.endswith("~") for g in known)) and len(chain) < 5:
         k = 1 + ch.draw(2, "add-groups")
-        for _ in range(min(k, len(order))):
-            known.append(order.pop(ch.draw(len(order), "which-group")))
+        for _ in range(k):
+            olds = [g for g in known if g.endswith("~")]
+            if olds and (not order or ch.coin(1, 2, "complete-partial")):
+                g = olds[ch.draw(len(olds), "which-partial")]
+                known[known.index(g)] = g.rstrip("~")  # the extension is upgraded to its full version
+            elif order:
+                g = order.pop(ch.draw(len(order), "which-group"))
+                known.append(g + "~" if ch.coin(1, 3, "arrives-partial") else g)
         chain.append(list(known))
+        if any(g.endswith("~") for g in known):
+            ctx.probe("registry_with_older_extension_version")
         if ch.coin(1, 3, "stop-partial"):
             break
     ctx.profile = {"leg": "hugr", "root": sim.root_kind, "chain": ["+".join(c) or "empty" for c in chain]}
@@ -219,7 +258,7 @@ def hugr_leg(ctx):
             ctx.ev("session", "resolve_extensions", {"registry": groups or ["empty"], "delivery": d + 1})
             if d > 0:
                 ctx.fault("duplicate_resolve")
-            if groups != chain[-1] or "verif.u" not in groups:
+            if groups != chain[-1] or "verif.u" not in groups or any(g.endswith("~") for g in groups):
                 ctx.fault("partial_registry")
             after = {n.idx: (h[n].op, op_tree(h[n].op)) for n in h}
             ctx.checked("exactly-when")
@@ -353,9 +392,16 @@ def type_leg(ctx):
     ctx.profile = {"leg": "type", "opaque_nodes": len(tree0)}
     ever = set()
     for _ in range(1 + ch.draw(4, "n-steps")):
-        if order and ch.coin(2, 3, "learn"):
-            known.append(order.pop(ch.draw(len(order), "which-group")))
+        olds = [g for g in known if g.endswith("~")]
+        if olds and ch.coin(1, 3, "complete-partial"):
+            g = olds[ch.draw(len(olds), "which-partial")]
+            known[known.index(g)] = g.rstrip("~")
+        elif order and ch.coin(2, 3, "learn"):
+            g = order.pop(ch.draw(len(order), "which-group"))
+            known.append(g + "~" if ch.coin(1, 3, "arrives-partial") else g)
         groups = list(known)
+        if any(g.endswith("~") for g in groups):
+            ctx.probe("registry_with_older_extension_version")
         reg = registry(groups)
         for d in range(1 + ch.draw(2, "deliveries")):
             try:
